@@ -21,6 +21,9 @@ pub enum StopCase {
     One { fen: String, depth: u8, n: u64 },
     /// the real binary: mode 0 `go infinite` + immediate `stop`; 1 `go movetime t`; 2 env VERIF_STOP_AFTER_POLLS=n + `go depth 4`
     Uci { walk: Walk, mode: u8, n: u16 },
+    /// wall-clock latency of `stop` through the real binary on a given position: `go depth d`, `stop` after
+    /// `stop_after_ms`, the answer must arrive within 10 s (a generous bound: the property says "promptly")
+    Latency { fen: String, depth: u8, stop_after_ms: u16 },
 }
 
 pub struct C07;
@@ -167,15 +170,38 @@ impl C07 {
     }
 }
 
+/// (position, depth): ordinary and promotion-rich boards that must obey `stop` at once, and the extreme
+/// all-pawns-promoted board on which the unpolled capture search runs for minutes (known finding)
+pub const LATENCY_CASES: &[(&str, u8)] = &[
+    ("rnbqkbnr/pppppppp/8/8/8/8/PPPPPPPP/RNBQKBNR w KQkq - 0 1", 30),
+    ("r3k2r/p1ppqpb1/bn2pnp1/3PN3/1p2P3/2N2Q1p/PPPBBPPP/R3K2R w KQkq - 0 1", 30),
+    ("3qkq2/2q3q1/8/2Q3Q1/8/1q5q/2Q3Q1/3QKQ2 w - - 0 1", 30),
+    ("q1q1k1q1/1q1q1q1q/8/8/8/8/1Q1Q1Q1Q/Q1Q1K1Q1 w - - 0 1", 3),
+    ("qqqqkqqq/qq6/8/8/8/8/QQ6/QQQQKQQQ w - - 0 1", 2),
+];
+
 impl Prop for C07 {
     type Case = StopCase;
+
+    fn enumerate(&self, ctx: &Ctx, ev: &mut Ev, report: &mut dyn FnMut(StopCase, Fail)) {
+        for (i, (fen, depth)) in LATENCY_CASES.iter().enumerate() {
+            if !ctx.owns(i as u64) {
+                continue;
+            }
+            let case = StopCase::Latency { fen: fen.to_string(), depth: *depth, stop_after_ms: 150 };
+            ctx.note_inflight("C07", &case);
+            if let Err(f) = self.check(ctx, &case, ev) {
+                report(case, f);
+            }
+        }
+    }
 
     fn id(&self) -> &'static str {
         "C07"
     }
 
     fn rule(&self) -> String {
-        "Cases: end positions of generated walks, fresh or warm table (warm = after a depth-2 search of the same position). In-process the node-entry hook flips the stop flag after exactly N polls, N enumerated exhaustively 0..=64 and then geometrically (x1.4) up to the poll count of the full depth-limited search (depth 3-4), one search per N: the result must be a move legal in the reference model whenever the model has one (None only for checkmate/stalemate roots), and the hook must count 0 node entries after the flip; for a sample of stop instants every cached child of the root is then searched (depth 1-2) with the table the stopped search left behind and must get a legal answer too. About 1 case in 12 drives the real binary: `go infinite` immediately followed by `stop`, `go movetime 0..10`, or VERIF_STOP_AFTER_POLLS=N with `go depth 4`; `bestmove none` with legal moves available is the violation. evaluations = stopped searches. Non-trivial: N smaller than the polls a depth-1 iteration needs (the window in which no iteration has completed), and every binary session; distinct by (position, N).".into()
+        "Cases: end positions of generated walks, fresh or warm table (warm = after a depth-2 search of the same position). In-process the node-entry hook flips the stop flag after exactly N polls, N enumerated exhaustively 0..=64 and then geometrically (x1.4) up to the poll count of the full depth-limited search (depth 3-4), one search per N: the result must be a move legal in the reference model whenever the model has one (None only for checkmate/stalemate roots), and the hook must count 0 node entries after the flip; for a sample of stop instants every cached child of the root is then searched (depth 1-2) with the table the stopped search left behind and must get a legal answer too. Five fixed boards (start, Kiwipete, 5+5 queens, 8+8 queens, 9+9 queens) get `go depth d`, `stop` after 150 ms through the real binary and must answer within 10 s. About 1 case in 12 drives the real binary: `go infinite` immediately followed by `stop`, `go movetime 0..10`, or VERIF_STOP_AFTER_POLLS=N with `go depth 4`; `bestmove none` with legal moves available is the violation. evaluations = stopped searches. Non-trivial: N smaller than the polls a depth-1 iteration needs (the window in which no iteration has completed), and every binary session; distinct by (position, N).".into()
     }
 
     fn assumptions(&self) -> Vec<String> {
@@ -208,6 +234,46 @@ impl Prop for C07 {
     fn check(&self, _ctx: &Ctx, case: &StopCase, ev: &mut Ev) -> Result<(), Fail> {
         match case {
             StopCase::Uci { walk, mode, n } => self.uci(walk, *mode, *n, ev),
+            StopCase::Latency { fen, depth, stop_after_ms } => {
+                let p = Pos::from_fen(fen).map_err(|e| Fail::new("harness", e))?;
+                let legal: Vec<String> = p.legal().iter().map(|m| m.uci()).collect();
+                let heavy = p.b.iter().filter(|c| b"QRqr".contains(c)).count();
+                let mut sess = Session::start(&[]).map_err(|e| Fail::new("harness", e))?;
+                sess.send(&format!("position fen {}", fen));
+                sess.send(&format!("go depth {}", depth));
+                let early = sess.drain(*stop_after_ms as u64);
+                ev.eval();
+                ev.class("uci_stop_latency_cases");
+                if early.iter().any(|l| l.starts_with("bestmove")) {
+                    ev.class("uci_stop_latency_search_ended_before_the_stop");
+                    sess.quit();
+                    return Ok(());
+                }
+                sess.send("stop");
+                let t0 = std::time::Instant::now();
+                match sess.read_until(|l| l.starts_with("bestmove"), 10_000) {
+                    Some(lines) => {
+                        let bm = uci::bestmove_of(&lines).unwrap_or_default();
+                        if !legal.contains(&bm) {
+                            sess.kill();
+                            return Err(Fail::new(if bm == "none" { "stopped-search-returns-no-move" } else { "stopped-search-returns-illegal-move" }, format!("{} : stop after {} ms of `go depth {}` answered {}", fen, stop_after_ms, depth, bm)));
+                        }
+                        ev.nontrivial(mix(fp_pos(&p) ^ 0x1A7 ^ *stop_after_ms as u64), || json!({"position": fen, "go_depth": depth, "stop_after_ms": stop_after_ms, "answer_after_ms": t0.elapsed().as_millis() as u64, "heavy_pieces": heavy}));
+                        sess.quit();
+                        Ok(())
+                    }
+                    None => {
+                        sess.kill();
+                        // the class of the input is part of the signature, so that the known finding below does
+                        // not hide a stop that is ignored on ordinary boards
+                        let class = if heavy >= 14 { "boards-with-14-or-more-queens-and-rooks" } else { "ordinary-material" };
+                        Err(Fail::new(
+                            &format!("stop-not-honoured-within-10s:{}", class),
+                            format!("{} ({} queens and rooks): `go depth {}`, `stop` after {} ms, no bestmove within 10 s of the stop", fen, heavy, depth, stop_after_ms),
+                        ))
+                    }
+                }
+            }
             StopCase::One { fen, depth, n } => {
                 let p = Pos::from_fen(fen).map_err(|e| Fail::new("harness", e))?;
                 let g = Game::new(fen).map_err(|e| Fail::new("sane-position-not-importable", e.to_string()))?;
